@@ -36,8 +36,8 @@ class C27(Prop):
              "a file IS the write log of level 1, so the crash theorems apply to every file of every run; the duration given to "
              "writeDuration and onSegmentComplete at close is the TRUE duration of the file with any number of tracks "
              "interleaved in any order - (end of the sample that ends last, the maximum over every sample of the file) - "
-             "(segment start), not the end of the sample written last: exact for every segment closed by a switch and, when no "
-             "write failed, for the one closed by formatFMP4.close; never too short in any run (C27_true_duration*); with "
+             "(segment start), not the end of the sample written last: for every file of every run, also the one closed "
+             "after a failed write (C27_true_duration, _at_switch, _scan; repaired code, fix b7e594b); with "
              "non-decreasing sample ends per track it is the maximum over the tracks of the end of their last sample. (3) The duration "
              "rewrite at close at the granularity of Write calls: the file after any number of complete calls (+ a torn, "
              "zero-filled appending call) is a crash image with the header of writeInit (duration 0) or the closed file, and "
@@ -55,10 +55,10 @@ class C27(Prop):
              "driver family CTorn replays every prefix of the observed Write calls through the real /list code). The repaired "
              "code writes the payload with one call; C27_list_any_write_crash covers every crash point at write granularity; "
              "what one write(2) leaves behind when the machine stops inside it is the file system's business (assumption). "
-             "REFUTED after a failed write (C27_true_duration_after_error_refuted): formatFMP4Segment.write raises endDTS before "
-             "formatFMP4Part.write refuses a sample ('reached maximum part size'), so the file closed after that error records the "
-             "end of a sample it does not hold (over-long by one sample, never too short; the recorder restarts; spec_fail accepts "
-             "exactly this value for that file). REFUTED for two video tracks (C27_starts_on_sync_two_video_"
+             "FIXED FINDING (b7e594b): formatFMP4Segment.write raised endDTS before formatFMP4Part.write could refuse a sample "
+             "('reached maximum part size'), so the segment closed after that error recorded the end of a sample it does not hold "
+             "(max part size 100, samples of 50 and 80 bytes: 80 ms recorded, 40 ms held; C27_true_duration_pinned_refuted on "
+             "run_pinned; driver family 'oversize' forces the error in every run). REFUTED for two video tracks (C27_starts_on_sync_two_video_"
              "refuted): the switch follows the key frames of one track. The filesystem's own crash "
              "semantics are the property's prefix+zero-fill model; the mediacommon encoders are oracles (box sizes read "
              "back from the files); timestamp sums other than timestampToDuration are on Z (no int64 wrap); I/O errors are "
@@ -73,10 +73,12 @@ class C27(Prop):
             "marker instead of a sleep; 24 (thorough 1500) generated sample streams handed to formatFMP4Track.write: 0-2 "
             "video tracks (H.264 / MPEG-4 Video) and 0-2 audio tracks (Opus / AAC), GOP 1..12, 10/25/30 fps with jitter, "
             "backward steps and gaps, track offsets up to +-1.6 s, negative timestamps, NTP jitter and drift beyond the "
-            "tolerance, small max part sizes (oversize samples), ungated streams; plus n/4 (at least 6) streams of the families "
+            "tolerance, small max part sizes (oversize samples), ungated streams; plus n/3 (at least 8) streams of the families "
             "in which the tracks are out of step when a segment is closed: 'ahead' (one track, mostly audio, handed in 200-900 ms "
             "ahead of the others), 'sparse' (an audio track of 0.3-1.2 s samples handed in ahead), 'behind' (one track, mostly "
-            "the video track that switches segments, handed in 200-900 ms late), the stream ending while every track is still "
+            "the video track that switches segments, handed in 200-900 ms late), 'oversize' (small maximum part size and one "
+            "sample beyond it in the second half: the write fails, the format is closed, the last segment must record what it "
+            "holds), the stream ending while every track is still "
             "being handed in and on a call of a track that is not the furthest - class suffix '+end-not-last' = a closed segment "
             "whose last written sample ends before one written earlier (count in the driver summary); for every file of every "
             "stream spec_fail recomputes the true duration (maximum end over the samples that must be in the file) from the input "
